@@ -33,6 +33,16 @@ func Find(p Meta, path string) Definition {
 	if hd, ok := p.(HasDataDefinitions); ok {
 		return hd.Definition(path)
 	}
+	if rpc, ok := p.(*Rpc); ok {
+		// input and output of an rpc or action, e.g. as target of an augment or deviation
+		switch {
+		case path == "input" && rpc.input != nil:
+			return rpc.input
+		case path == "output" && rpc.output != nil:
+			return rpc.output
+		}
+		return nil
+	}
 	if choice, ok := p.(*Choice); ok {
 		if c, found := choice.Cases()[path]; found {
 			return c
